@@ -16,7 +16,7 @@ import (
 
 func TestMain(m *testing.M) {
 	kit.Register("tree", treeOracle)
-	kit.Describe("case = (initial forest over a pool of 4..7 nodes of mixed concrete types, operation list of AppendChild / InsertBefore (nil, child or foreign reference) / InsertAfter / ReplaceChild / RemoveChild (child or not) / RemoveChildren / SortChildren (comparator from a key assignment), walker status script); operations whose documented precondition fails on the model (insertee is the parent or one of its ancestors, insertee == reference) are skipped by the oracle itself; after every operation every pool node's forward and backward child sequence, Parent, ChildCount and HasChildren are compared with a list-of-children model; finally ast.Walk over every root is compared (events and returned error) with a reference recursion under the status script. Thorough enumerates all sequences of length <= 3 over a pool of 4 nodes from 4 initial forests exhaustively (quick: length <= 2). non-trivial = the sequence moves a node between parents or inserts relative to a first/last/foreign reference, and the final forest has depth >= 2; distinct by hash of the case",
+	kit.Describe("case = (initial forest over a pool of 4..7 nodes of mixed concrete types, operation list of AppendChild / InsertBefore (nil, child or foreign reference) / InsertAfter / ReplaceChild / RemoveChild (child or not) / RemoveChildren / SortChildren (comparator from a key assignment), walker status script); operations whose documented precondition fails on the model (insertee is the parent or one of its ancestors, insertee == reference) are skipped by the oracle itself; after every operation every pool node's forward and backward child sequence, Parent, ChildCount and HasChildren are compared with a list-of-children model; finally ast.Walk started on every node (roots and inner nodes: the walk must stay inside that node's subtree) is compared (events and returned error) with a reference recursion under the status script. Thorough enumerates all sequences of length <= 3 over a pool of 4 nodes from 4 initial forests exhaustively (quick: length <= 2). non-trivial = the sequence moves a node between parents or inserts relative to a first/last/foreign reference, and the final forest has depth >= 2; distinct by hash of the case",
 		"SortChildren is checked with a validity predicate (a permutation, non-decreasing under the comparator): stability is not documented", "calling a method on a nil reference (InsertAfter/ReplaceChild with nil) is outside the documented contract and not generated")
 	kit.Main(m, "C13")
 }
@@ -425,10 +425,9 @@ func checkWalk(m *model, nodes []ast.Node, script string) error {
 	for i, nd := range nodes {
 		idx[nd] = i
 	}
+	// Walk from every node, not only from roots: a walk started on a node that has a parent and
+	// siblings must stay inside that node's subtree.
 	for root := range nodes {
-		if m.parent[root] != -1 {
-			continue
-		}
 		var got, want []string
 		k := 0
 		gerr := ast.Walk(nodes[root], func(n ast.Node, entering bool) (ast.WalkStatus, error) {
